@@ -906,13 +906,31 @@ mod shimtest {
                 match x.find(c) { Some(i) => if !x.is_char_boundary(i) || x[i..].chars().next() != Some(c) || x[..i].contains(c) { h.hit("shims", "shim_find_char", "str::find", x, ""); }, None => if x.contains(c) { h.hit("shims", "shim_find_char", "str::find", x, ""); } }
                 if x.contains(c) != x.chars().any(|d| d == c) { h.hit("shims", "shim_contains_char", "str::contains", x, ""); }
                 if x.replace(c, "") != x.chars().filter(|d| *d != c).collect::<String>() { h.hit("shims", "shim_replace_char", "str::replace", x, ""); }
-                if let Some((a, b)) = x.split_once(c) { if format!("{}{}{}", a, c, b) != x { h.hit("shims", "shim_split_once_char", "str::split_once", x, ""); } }
+                // the split is at the FIRST occurrence, and there is one exactly when the character occurs
+                match x.split_once(c) {
+                    Some((a, b)) => if format!("{}{}{}", a, c, b) != x || a.contains(c) || x.split_once(c.to_string().as_str()) != Some((a, b)) { h.hit("shims", "shim_split_once_char", "str::split_once", x, ""); },
+                    None => if x.contains(c) { h.hit("shims", "shim_split_once_char", "str::split_once", x, "None although the character occurs"); },
+                }
             }
             if x.replace("_", "-") != x.chars().map(|d| if d == '_' { '-' } else { d }).collect::<String>() { h.hit("shims", "shim_replace_1_1", "str::replace", x, ""); }
             if let Some(r) = x.strip_prefix("a") { if format!("a{}", r) != x { h.hit("shims", "shim_strip_prefix", "str::strip_prefix", x, ""); } }
             if !x.is_empty() { let mut y = x.to_string(); let c = y.remove(0); if Some(c) != x.chars().next() || y != x.chars().skip(1).collect::<String>() { h.hit("shims", "shim_string_remove0", "String::remove", x, ""); } }
             if x.replace(|c: char| c.is_ascii_control(), "") != x.chars().filter(|c| !c.is_ascii_control()).collect::<String>() { h.hit("shims", "shim_replace_ctl", "str::replace", x, ""); }
         }
+        // the process environment behaves as a map (shims/world.rs): a written value is read back, other variables keep theirs
+        std::env::set_var("RWS_VERIF_SHIM_A", "one"); std::env::set_var("RWS_VERIF_SHIM_B", "two"); std::env::set_var("RWS_VERIF_SHIM_A", "");
+        if std::env::var("RWS_VERIF_SHIM_A").ok().as_deref() != Some("") || std::env::var("RWS_VERIF_SHIM_B").ok().as_deref() != Some("two") || std::env::var("RWS_VERIF_SHIM_UNSET").is_ok() {
+            h.hit("shims", "shim_env_map", "env::var / env::set_var", "", "the environment does not behave as a map");
+        }
+        std::env::remove_var("RWS_VERIF_SHIM_A"); std::env::remove_var("RWS_VERIF_SHIM_B");
+        if std::env::args().any(|a| a.contains('\0')) { h.hit("shims", "shim_args_nul", "env::args", "", "a command line word holds NUL"); }
+        // BufRead::lines of a text: no line holds the line feed; i32 texts; i32 to text
+        for t in ["a\nb", "a\r\nb\r\n", "", "\n\n", "x"] {
+            let ls: Vec<String> = Cursor::new(t.as_bytes()).lines().map(|l| l.unwrap()).collect();
+            if ls.iter().any(|l| l.contains('\n')) || ls.join("") != t.replace("\r\n", "").replace('\n', "") { h.hit("shims", "shim_lines", "BufRead::lines", t, ""); }
+        }
+        for s in &ss { if s.parse::<i32>().ok().map(|x| x as i128) != parses_signed(s, i32::MIN as i128, i32::MAX as i128) { h.hit("shims", "shim_parse_i32", "str::parse::<i32>", s, ""); } }
+        for n in [0i32, 7, -7, i32::MAX, i32::MIN, 7878] { let want = if n < 0 { format!("-{}", dec((n as i128).unsigned_abs())) } else { dec(n as u128) }; if n.to_string() != want { h.hit("shims", "shim_i32_to_string", "i32::to_string", &n.to_string(), ""); } }
         // std::env::set_var: fine for a valid key and a NUL-free value; panics on NUL in the value, on '=' / NUL / empty in the key
         if panic::catch_unwind(|| std::env::set_var("RWS_VERIF_SHIM_TEST", "a=b \u{e9}")).is_err() { h.hit("shims", "shim_set_var_ok", "env::set_var", "", "panic on a valid pair"); }
         for (k, v) in [("RWS_VERIF_SHIM_TEST", "a\0b"), ("", "x"), ("A=B", "x"), ("A\0B", "x")] {
